@@ -74,7 +74,7 @@ def tlc(module, cfg, workdir, env=None, workers=1, timeout=1800, simulate=None, 
     os.makedirs(workdir, exist_ok=True)
     meta = os.path.join(workdir, "meta")
     shutil.rmtree(meta, ignore_errors=True)
-    jopts = ["-XX:+UseParallelGC", "-Xss1g", "-Xmx" + xmx]
+    jopts = (["-XX:+UseSerialGC", "-XX:ActiveProcessorCount=2"] if workers == 1 else ["-XX:+UseParallelGC"]) + ["-Xss1g", "-Xmx" + xmx]
     if deque:
         jopts.append("-Dtlc2.tool.queue.IStateQueue=StateDeque")
     cmd = ["java"] + jopts + ["-cp", JAVA_CP, "tlc2.TLC", "-workers", str(workers), "-metadir", meta, "-cleanup",
@@ -216,7 +216,7 @@ def validate(module, cfg, events_path, workdir, shards=None, timeout=3000):
         cur.append(ln)
     if cur:
         groups.append(cur)
-    n = shards or max(1, min(NCPU - 2, len(lines) // 1500 + 1))
+    n = shards or max(1, min(NCPU - 3, len(lines) // 1500 + 1))
     buckets = [[] for _ in range(n)]
     sizes = [0] * n
     for g in groups:
